@@ -3,9 +3,14 @@ EXTENDS LazyIndex
 \* ("void" is a directory object that lists nothing - the object every tracked empty directory shares)
 KeysDef == {"foo", "data", "data/bar", "data/sub", "data/sub/baz", "data/sub/deep", "data/sub/deep/qux", "other", "other/x", "void",
             \* lazy directories below an explicit directory: one with files at two depths, one that lists nothing
-            "top", "top/in", "top/in/a", "top/in/s", "top/in/s/b", "top/e"}
+            "top", "top/in", "top/in/a", "top/in/s", "top/in/s/b", "top/e",
+            \* a directory object whose only file sits three levels down: the directories between hold no file of their own
+            "hollow", "hollow/p", "hollow/p/q", "hollow/p/q/r"}
 ParentDef == [k \in KeysDef |->
-    CASE k \in {"foo", "data", "other", "void", "top"} -> ""
+    CASE k \in {"foo", "data", "other", "void", "top", "hollow"} -> ""
+      [] k = "hollow/p" -> "hollow"
+      [] k = "hollow/p/q" -> "hollow/p"
+      [] k = "hollow/p/q/r" -> "hollow/p/q"
       [] k \in {"top/in", "top/e"} -> "top"
       [] k \in {"top/in/a", "top/in/s"} -> "top/in"
       [] k = "top/in/s/b" -> "top/in/s"
@@ -13,8 +18,9 @@ ParentDef == [k \in KeysDef |->
       [] k \in {"data/sub/baz", "data/sub/deep"} -> "data/sub"
       [] k = "data/sub/deep/qux" -> "data/sub/deep"
       [] k = "other/x" -> "other"]
-IsDirDef == [k \in KeysDef |-> k \in {"data", "data/sub", "data/sub/deep", "other", "void", "top", "top/in", "top/in/s", "top/e"}]
-LazyDef == {"data", "other", "void", "top/in", "top/e"}
+IsDirDef == [k \in KeysDef |-> k \in {"data", "data/sub", "data/sub/deep", "other", "void", "top", "top/in", "top/in/s", "top/e",
+                                        "hollow", "hollow/p", "hollow/p/q"}]
+LazyDef == {"data", "other", "void", "top/in", "top/e", "hollow"}
 \* the changed copy: data/sub/deep/qux has other bytes, data/sub/new is added (so the directory object `data` differs)
 ChangedDef == {"data", "data/sub/deep/qux", "data/sub/new"}
 ChangedLazyDef == {"data"}
